@@ -68,6 +68,10 @@ func c17Gen(seed uint64, tier string) any {
 				src += " + XX3"
 			}
 		}
+		if sc.Inert.NeverRegex && r.Chance(1, 4) {
+			// identifiers and numbers that contain what a never-matching pattern's later alternative spells
+			src = Pick(r, []string{"xZZb7 = 3; xZZb7 + 1", "1 + qZZb2", "abcZZb3 ?? 5", "12ZZb3", "vZZa1 = 2; vZZa1 * vZZa1", "func fZZb9() { return 4 }; fZZb9()", "`{nZZb1 ?? 'none'}`"})
+		}
 		if r.Chance(1, 6) {
 			// names that exist in an inner frame with a null value and mean something further out
 			src = Pick(r, []string{"s = '  hi  '; &al = s; al", "s2 = 'line\n'; &a2 = s2; a2 + 'x'", "pad = ' 7 '; &ap = pad; &aq = ap; aq + ap", "t3 = '\tx'; &at = t3; `{at}`",
